@@ -1,2 +1,66 @@
-(* C16 - placeholder, theorems follow *)
-From Mkdb Require Import Spec.HistObs.
+(* C16 - Query results do not depend on the page-cache size.
+
+   Model: Model/PStore.v - fileStore.fetch / append / flushPages over the LRU of C15, with pages
+   changed through the node objects callers hold (a change made through an object that has been
+   evicted is lost: that is the hazard a small cache introduces). Reference: Spec/PStoreSpec.v, a
+   plain map (= unbounded cache).
+
+   PROVED (for every capacity, every operation list, every order in which a flush visits the dirty
+   pages): if the run respects the discipline `ok_run` - no fetch/allocation refused (C15: only
+   when the cache is full of dirty pages, i.e. the dirty set does not fit: excluded by the
+   property's hypothesis), every modification goes through the object currently cached for that
+   page, a freshly allocated page is modified (marked dirty) before it is evicted - then every page
+   reads exactly as with an unbounded cache; evicted pages are always clean and equal to their file
+   image (invariant pi_clean).
+   PARTIAL: that every B+ tree operation of btree.go / relation.go respects the discipline once the
+   capacity exceeds a few times the tree height is NOT proved (it needs the trace of fetches each
+   operation issues); it is validated on every run by executing the same histories with caches of
+   6..64 pages against the default 10000 and against the cache-less model (tools/props/c16.py), and
+   the page-store model itself is compared with the real fileStore on random traces. *)
+From Coq Require Import List NArith.
+From Mkdb Require Import Model.PStore Spec.PStoreSpec Proofs.PStoreProofs.
+Import ListNotations.
+Open Scope N_scope.
+
+Theorem C16_cache_invisible : forall cap ops k,
+  ok_run (ps_init cap) [] ops = true ->
+  ps_view (fst (ps_run (ps_init cap) ops)) k = ref_get k (ref_run [] ops).
+Proof. exact cache_invisible. Qed.
+Print Assumptions C16_cache_invisible.
+
+Theorem C16_fetch_sees_reference : forall cap ops k,
+  ok_run (ps_init cap) [] (ops ++ [PFetch k]) = true ->
+  match snd (ps_step (fst (ps_run (ps_init cap) ops)) (PFetch k)) with
+  | PObj _ c => c = ref_get k (ref_run [] ops)
+  | _ => False
+  end.
+Proof. exact fetch_sees_reference. Qed.
+Print Assumptions C16_fetch_sees_reference.
+
+(* two capacities, same operations, both within the discipline: identical contents *)
+Theorem C16_capacity_independent : forall cap1 cap2 ops k,
+  ok_run (ps_init cap1) [] ops = true -> ok_run (ps_init cap2) [] ops = true ->
+  ps_view (fst (ps_run (ps_init cap1) ops)) k = ps_view (fst (ps_run (ps_init cap2) ops)) k.
+Proof.
+  intros cap1 cap2 ops k H1 H2. rewrite (cache_invisible cap1 ops k H1), (cache_invisible cap2 ops k H2). reflexivity.
+Qed.
+Print Assumptions C16_capacity_independent.
+
+(* non-vacuity: a 3-page cache, 4 pages, evictions and re-reads, within the discipline *)
+Definition ex_ops : list pop :=
+  [PAlloc 1 10; PModify 1 1 11; PAlloc 2 20; PModify 2 2 21; PFlush [1; 2];
+   PAlloc 3 30; PModify 3 3 31; PAlloc 4 40; PModify 4 4 41; PFlush [];
+   PFetch 1; PModify 1 5 12; PFetch 2; PFetch 3].
+Example C16_nonvacuous :
+  ok_run (ps_init 3) [] ex_ops = true /\
+  ps_view (fst (ps_run (ps_init 3) ex_ops)) 1 = 12 /\
+  length (entries (ps_cache (fst (ps_run (ps_init 3) ex_ops)))) = 3%nat.
+Proof. vm_compute. repeat split; reflexivity. Qed.
+
+(* and the hazard is real: outside the discipline a change made through a stale object is lost *)
+Example C16_stale_pointer_loses_update :
+  let ops := [PAlloc 1 10; PModify 1 1 11; PFlush []; PAlloc 2 20; PModify 2 2 21; PFlush [];
+              PAlloc 3 30; PModify 3 3 31; PFlush []; PModify 1 1 99] in
+  ok_run (ps_init 2) [] ops = false /\
+  ps_view (fst (ps_run (ps_init 2) ops)) 1 = 11 /\ ref_get 1 (ref_run [] ops) = 99.
+Proof. vm_compute. repeat split; reflexivity. Qed.
